@@ -51,7 +51,7 @@ def plan(tier):
 
 def make_trace(seed, tier):
     r = seeds.rng(seed, "plan")
-    big = r.random() < 0.06
+    big = r.random() < 0.08
     return {"knobs": {"n": 9000 + r.randrange(0, 3000) if big else r.choice([2, 7, 24]),
                       "backing": r.choice(["dict", "dict", "file", "child", "grandchild"]) if not big else "dict",
                       "big": big,
@@ -104,6 +104,10 @@ class World:
             ctx.probe("file_backed")
         self.temps = {}
         self.base = self.build_base()
+        if k.get("big"):
+            # (so that the computed inputs of the plugin feature exist from the start)
+            self.base.config["imaging"]["pixel size"] = 0.34
+            self.base.config["imaging"]["frame rate"] = 2000.0
         self.child = None
         self.mid = None
         if k["backing"] == "child":
@@ -154,6 +158,11 @@ class World:
         if self.last_edit_fresh and r.random() < 0.6:
             self.last_edit_fresh = False
             return {"k": "read", "feat": r.choice(self.related(self.last_edit))}
+        if self.k.get("big") and r.random() < 0.6:
+            # large in-memory arrays: replace the temporary input (often only in its tail) between reads of what is computed from it
+            if "tmp_c06" in self.temps and r.random() < 0.55:
+                return {"k": "read", "feat": r.choice(["c06_b", "c06_b", "c06_a"])}
+            return {"k": "temp", "dseed": r.randrange(1 << 30), "name": "tmp_c06", "tail": r.random() < 0.7}
         calc = self.base.config["calculation"]
         if str(calc.get("emodulus medium", "")).lower() == "other" and r.random() < 0.25:
             # scenario B: exercise its own keys (and the ignored temperature)
@@ -286,7 +295,7 @@ class World:
                 return
             lo, hi = (1, 2) if name == "tmp_c06" else (0.01, 0.99)
             vals = seeds.np_rng(op["dseed"], "tmp").uniform(lo, hi, size=self.n)
-            if name in self.temps and op["dseed"] % 3 == 0 and self.n > 4:
+            if name in self.temps and (op["dseed"] % 3 == 0 or op.get("tail")) and self.n > 4:
                 # only the last few events change (a block-wise identifier must still see it)
                 keep = self.temps[name].copy()
                 k_tail = 1 + op["dseed"] % min(100, self.n // 2)
